@@ -102,6 +102,19 @@ fn main() {
             println!("{}", serde_json::json!({"t": "done", "i": 0, "out": r}));
             let _ = std::fs::remove_dir_all(runner::base_dir());
         }
+        "hashorder" => {
+            // diagnostic: is std's HashSet iteration order inside a simulation a function of the seed?
+            let seed: u64 = arg(&args, "--seed").unwrap_or_else(|| "1".into()).parse().unwrap();
+            let cfg = simrt::SimConfig { seed, ..Default::default() };
+            let (order, _sim) = simrt::run(cfg, || {
+                let mut h = std::collections::HashSet::new();
+                for i in 0..16u64 {
+                    h.insert(i);
+                }
+                h.into_iter().collect::<Vec<u64>>()
+            });
+            println!("{:?} getrandom_calls={}", order, interpose::GETRANDOM_CALLS.load(std::sync::atomic::Ordering::Relaxed));
+        }
         "gen" => {
             let check = arg(&args, "--check").unwrap();
             let tier = arg(&args, "--tier").unwrap_or_else(|| "quick".into());
